@@ -20,6 +20,7 @@ func init() {
 			"R2 (slice): where a VMEndorsementMap_Entry is built, Path and the written file path share one basename origin (the gate's result) and Digest derives from sha512.Sum384 of Context.Image. " +
 			"R3 (ESP): the manifest write (file path derived from endorse.ManifestFile) happens only after an endorsement write succeeded; the marshalled map is the object the manifest was parsed into. " +
 			"R4 (CFG): in the function that merges the new entry into the manifest list, no call that drops entries keyed by the new entry's digest or path is reachable after that digest/path was placed in the list (the fresh entry would be dropped with the stale one). " +
+			"R6 (= C14.R6/R6b) the manifest parsed, extended and written back comes from this attempt's workspace and lives in an object allocated during the attempt. " +
 			"R3c the manifest bytes handed to the workspace are prototext.Marshal's output with constant framing only (append / conversion / slicing); no other function is applied to them. " +
 			"R5 every in-repo implementation of ChangeOps.WriteOrCreateFiles replaces a file's contents wholly (os.WriteFile / os.Create, or os.OpenFile with O_TRUNC and without O_APPEND), so a rewritten manifest or endorsement that got shorter keeps no stale tail. " +
 			"Not covered: the four-way merge preserving path/digest uniqueness over histories (a relational invariant over list contents), that the manifest parses back.",
@@ -29,6 +30,9 @@ func init() {
 }
 
 func runC13(c *Ctx) {
+	// R6 = C14.R6/R6b: the manifest that is extended and written back is the one read from this attempt's workspace
+	// into an object allocated during the attempt (a stale view drops entries committed in between).
+	c.borrow("R6/C14.", runC14, func(rule, _ string) bool { return rule == "R6" || rule == "R6b" })
 	endorsePkg := repoPath("endorse")
 	vf := c.fn("R0", "endorse", "VirtualFirmware")
 	allow := c.fn("R0", "cmd/output", "AllowOverwrite")
